@@ -23,6 +23,9 @@ type Harness struct {
 	Body func(x *X)
 	// Check runs in the driver after quiescence, with every thread parked.
 	Check func(x *X)
+	// NoAtomicPoints: sync/atomic operations of instrumented code are executed without a scheduling
+	// point.  Only for harnesses whose oracles cannot observe the values involved (argued there).
+	NoAtomicPoints bool
 }
 
 // X is the harness's view of one execution.
@@ -119,6 +122,8 @@ type Options struct {
 	MaxFails  int
 	FrontierK int
 	Race      bool // race mode: skip Check, collect detector reports
+	ClaimDir  string
+	POR       bool // sleep-set partial-order reduction (requires Bound == -1)
 }
 
 // Violation is a failing execution with its replayable choice list.
@@ -131,29 +136,44 @@ type Violation struct {
 
 // Result of one exploration pass.
 type Result struct {
-	Harness     string         `json:"harness"`
-	Bound       int            `json:"bound"`
-	DevBound    int            `json:"dev_bound"`
-	Cache       bool           `json:"cache"`
-	Shard       int            `json:"shard"`
-	NShards     int            `json:"nshards"`
-	Executions  int64          `json:"executions"`
-	Transitions int64          `json:"transitions"`
-	States      int64          `json:"states"`
-	CacheHits   int64          `json:"cache_hits"`
-	MaxDepth    int            `json:"max_depth"`
-	MaxThreads  int            `json:"max_threads"`
-	Outcomes    map[string]int `json:"outcomes"`
-	NOutcomes   int            `json:"n_outcomes"`
-	Exhaustive  bool           `json:"exhaustive"`
-	StopReason  string         `json:"stop_reason,omitempty"`
-	Violations  []Violation    `json:"violations"`
-	SigCounts   map[string]int `json:"sig_counts"`
-	WallS       float64        `json:"wall_s"`
-	Samples     [][]string     `json:"samples,omitempty"`
-	RaceErrors  int            `json:"race_errors"`
-	StepLimited int64          `json:"step_limited"`
+	Harness      string         `json:"harness"`
+	Bound        int            `json:"bound"`
+	DevBound     int            `json:"dev_bound"`
+	Cache        bool           `json:"cache"`
+	Shard        int            `json:"shard"`
+	NShards      int            `json:"nshards"`
+	Executions   int64          `json:"executions"`
+	Transitions  int64          `json:"transitions"`
+	States       int64          `json:"states"`
+	CacheHits    int64          `json:"cache_hits"`
+	MaxDepth     int            `json:"max_depth"`
+	MaxThreads   int            `json:"max_threads"`
+	Outcomes     map[string]int `json:"outcomes"`
+	NOutcomes    int            `json:"n_outcomes"`
+	Exhaustive   bool           `json:"exhaustive"`
+	StopReason   string         `json:"stop_reason,omitempty"`
+	Violations   []Violation    `json:"violations"`
+	SigCounts    map[string]int `json:"sig_counts"`
+	WallS        float64        `json:"wall_s"`
+	Samples      [][]string     `json:"samples,omitempty"`
+	RaceErrors   int            `json:"race_errors"`
+	StepLimited  int64          `json:"step_limited"`
+	CutEarly     int64          `json:"cut_early"`
+	SleepBlocked int64          `json:"sleep_blocked"`
+	POR          bool           `json:"por"`
+	ShardMode    string         `json:"shard_mode,omitempty"`
+	Configs      int            `json:"configs,omitempty"`
 }
+
+var findOutcome = os.Getenv("VERIF_FIND")
+var findCount int
+var dumpFile = func() *os.File {
+	if p := os.Getenv("VERIF_DUMP"); p != "" {
+		f, _ := os.Create(p)
+		return f
+	}
+	return nil
+}()
 
 type explorer struct {
 	h      *Harness
@@ -169,14 +189,26 @@ const watchdog = 60 * time.Second
 
 // runOne executes the harness once following prefix, defaults afterwards.
 func (E *explorer) runOne(prefix []int32, useCache bool) *Exec {
+	return E.runOneS(prefix, useCache, nil)
+}
+
+func (E *explorer) runOneS(prefix []int32, useCache bool, sleepInit []transID) *Exec {
 	h := E.h
-	e := &Exec{prefix: prefix, clock: epoch, cacheCut: -1}
+	e := &Exec{prefix: prefix, clock: epoch, cacheCut: -1, traceOn: traceNext}
+	if E.opt.POR {
+		e.por = true
+		e.sleepInit = sleepInit
+		if len(prefix) == 0 {
+			e.sleep = append([]transID(nil), sleepInit...)
+		}
+	}
 	e.horizon = epoch + int64(h.Horizon)
 	e.maxSteps = h.MaxSteps
 	if e.maxSteps == 0 {
 		e.maxSteps = 20000
 	}
 	e.quiesceC = make(chan int, 1)
+	e.noAtomicPoints = h.NoAtomicPoints
 	e.Cfg = E.opt.Cfg
 	if useCache {
 		e.cacheFn = E.cacheCheck
@@ -198,7 +230,11 @@ func (E *explorer) runOne(prefix []int32, useCache bool) *Exec {
 	if e.stepLim {
 		E.res.StepLimited++
 	}
-	if h.Check != nil && !E.opt.Race {
+	if e.sleepBlk {
+		E.res.SleepBlocked++
+	} else if e.earlyStop {
+		E.res.CutEarly++
+	} else if h.Check != nil && !E.opt.Race {
 		h.Check(x)
 	}
 	// collect panics of code threads as observations; the harness decides in Check what they mean
@@ -282,7 +318,17 @@ func (E *explorer) account(e *Exec, prefix []int32) {
 	if len(e.threads) > r.MaxThreads {
 		r.MaxThreads = len(e.threads)
 	}
+	if e.earlyStop {
+		return
+	}
 	oc := strings.Join(e.obs, ";")
+	if findOutcome != "" && strings.Contains(oc, findOutcome) {
+		fmt.Printf("FOUND outcome %q\n  choices=%s\n", oc, fmtChoices(choicesOf(e)))
+		findCount++
+		if findCount >= 3 {
+			os.Exit(0)
+		}
+	}
 	if len(r.Outcomes) < 4096 {
 		r.Outcomes[oc]++
 	} else if _, ok := r.Outcomes[oc]; ok {
@@ -414,6 +460,120 @@ func (E *explorer) dfs(prefix []int32) {
 	}
 }
 
+// enumConfigs enumerates the configurations of a harness: the value vectors of its leading
+// Choose points (those before the first scheduling point).  It stops early (returning what it has)
+// once more than limit*64 configurations exist... it never does: configurations are always
+// enumerated completely, the limit only skips the enumeration when the harness has too few.
+func (E *explorer) enumConfigs(min int) [][]int32 {
+	var out [][]int32
+	var rec func(prefix []int32)
+	rec = func(prefix []int32) {
+		e := E.runOne(prefix, false)
+		m := 0
+		for m < len(e.points) && e.points[m].kind != ptSched {
+			m++
+		}
+		cfg := make([]int32, m)
+		dev := 0
+		for i := 0; i < m; i++ {
+			cfg[i] = e.points[i].chosen
+		}
+		out = append(out, cfg)
+		for i := 0; i < m; i++ {
+			p := e.points[i]
+			if i >= len(prefix) {
+				for alt := int32(1); alt < p.n; alt++ {
+					if p.kind == ptDev && E.opt.DevBound >= 0 && dev+1 > E.opt.DevBound {
+						continue
+					}
+					c := append(append([]int32{}, cfg[:i]...), alt)
+					rec(c)
+				}
+			}
+			if p.kind == ptDev && p.chosen > 0 {
+				dev++
+			}
+		}
+	}
+	rec(nil)
+	return out
+}
+
+// dfsSleep is the sleep-set variant of dfs (unbounded preemptions only).
+func (E *explorer) dfsSleep(prefix []int32, sleepInit []transID) {
+	if E.timeUp() {
+		return
+	}
+	e := E.runOneS(prefix, false, sleepInit)
+	E.account(e, prefix)
+	if dumpFile != nil {
+		fmt.Fprintf(dumpFile, "RUN prefixlen=%d blocked=%v choices=", len(prefix), e.sleepBlk)
+		for i, p := range e.points {
+			as := ""
+			if i < len(e.pinfo) && e.pinfo[i].asleep != nil {
+				for _, a := range e.pinfo[i].asleep {
+					if a {
+						as += "z"
+					} else {
+						as += "."
+					}
+				}
+			}
+			fmt.Fprintf(dumpFile, "%d/%d%s ", p.chosen, p.n, as)
+		}
+		fmt.Fprintf(dumpFile, " sleepInit=%v\n", sleepInit)
+	}
+	points, pinfo := e.points, e.pinfo
+	e = nil
+	dev := 0
+	for i := 0; i < len(points); i++ {
+		p := points[i]
+		if i >= len(prefix) {
+			pi := pinfo[i]
+			mk := func(alt int32) []int32 {
+				c := make([]int32, i+1)
+				for j := 0; j < i; j++ {
+					c[j] = points[j].chosen
+				}
+				c[i] = alt
+				return c
+			}
+			if p.kind != ptSched {
+				for alt := int32(0); alt < p.n; alt++ {
+					if alt == p.chosen {
+						continue
+					}
+					if p.kind == ptDev && E.opt.DevBound >= 0 && dev+1 > E.opt.DevBound {
+						continue
+					}
+					E.dfsSleep(mk(alt), pi.sleepAt)
+					if E.stop {
+						return
+					}
+				}
+			} else {
+				explored := []transID{pi.opts[p.chosen]}
+				for alt := int32(0); alt < p.n; alt++ {
+					if alt == p.chosen || pi.asleep[alt] {
+						continue
+					}
+					init := make([]transID, 0, len(pi.sleepAt)+len(explored))
+					init = append(init, pi.sleepAt...)
+					init = append(init, explored...)
+					E.dfsSleep(mk(alt), init)
+					if E.stop {
+						return
+					}
+					explored = append(explored, pi.opts[alt])
+				}
+			}
+		}
+		if p.kind == ptDev && p.chosen > 0 {
+			dev++
+		}
+	}
+}
+
 // Explore runs one pass.  With NShards > 1 the tree is first expanded breadth-first (identically
 // in every shard) until at least FrontierK open nodes exist; shard s then explores the subtrees of
 // the open nodes with index ≡ s (mod NShards).  Nodes executed during the expansion are accounted
@@ -433,9 +593,39 @@ func Explore(h *Harness, opt Options) *Result {
 	E := &explorer{h: h, opt: opt, res: res, cache: map[uint64]uint16{}}
 	start := time.Now()
 	race0 := raceErrors()
+	var cfgs [][]int32
+	if opt.NShards > 1 {
+		cfgs = E.enumConfigs(4 * opt.NShards)
+	}
+	res.POR = opt.POR
+	if opt.POR && opt.Bound >= 0 {
+		engineFail("sleep-set reduction cannot be combined with a preemption bound")
+	}
+	run := E.dfs
+	if opt.POR {
+		run = func(p []int32) { E.dfsSleep(p, nil) }
+	}
 	if opt.NShards == 1 {
-		E.dfs(nil)
+		run(nil)
+	} else if (len(cfgs) >= opt.NShards || opt.POR) && opt.ClaimDir != "" {
+		// Configuration sharding: the leading Choose points of a harness select its configuration;
+		// each worker claims whole configurations (dynamic balancing through O_EXCL claim files), so
+		// that its state cache sees complete subtrees.
+		res.ShardMode = "config"
+		res.Configs = len(cfgs)
+		for i, c := range cfgs {
+			if E.stop {
+				break
+			}
+			f, err := os.OpenFile(fmt.Sprintf("%s/claim-%d", opt.ClaimDir, i), os.O_CREATE|os.O_EXCL|os.O_WRONLY, 0o644)
+			if err != nil {
+				continue
+			}
+			f.Close()
+			run(c)
+		}
 	} else {
+		res.ShardMode = "frontier"
 		// deterministic breadth-first expansion without cache (so that all shards agree)
 		queue := [][]int32{nil}
 		for len(queue) > 0 && len(queue) < opt.FrontierK {
@@ -454,6 +644,9 @@ func Explore(h *Harness, opt Options) *Result {
 			if i%opt.NShards != opt.Shard {
 				continue
 			}
+			if opt.POR {
+				engineFail("sleep-set mode needs configuration sharding (harness has fewer configurations than shards)")
+			}
 			E.dfs(p)
 			if E.stop {
 				break
@@ -466,7 +659,7 @@ func Explore(h *Harness, opt Options) *Result {
 	res.WallS = time.Since(start).Seconds()
 	res.RaceErrors = raceErrors() - race0
 	// keep the outcome table small in the output
-	if len(res.Outcomes) > 40 {
+	if len(res.Outcomes) > 400 {
 		type kv struct {
 			k string
 			v int
@@ -477,7 +670,7 @@ func Explore(h *Harness, opt Options) *Result {
 		}
 		sort.Slice(l, func(i, j int) bool { return l[i].v > l[j].v || (l[i].v == l[j].v && l[i].k < l[j].k) })
 		res.Outcomes = map[string]int{}
-		for _, e := range l[:40] {
+		for _, e := range l[:400] {
 			res.Outcomes[e.k] = e.v
 		}
 	}
@@ -486,12 +679,16 @@ func Explore(h *Harness, opt Options) *Result {
 
 // Replay runs one execution from a choice list and returns failures, observations and a
 // human-readable step list.
-func Replay(h *Harness, cfg map[string]string, choices []int32) (fails []Failure, obs []string, n int) {
+func Replay(h *Harness, cfg map[string]string, choices []int32) (fails []Failure, obs []string, n int, steps []string) {
 	res := &Result{Outcomes: map[string]int{}, SigCounts: map[string]int{}}
 	E := &explorer{h: h, opt: Options{Cfg: cfg, Bound: -1, DevBound: -1}, res: res, cache: map[uint64]uint16{}}
+	traceNext = true
 	e := E.runOne(choices, false)
-	return e.fails, e.obs, len(e.points)
+	traceNext = false
+	return e.fails, e.obs, len(e.points), e.trace
 }
+
+var traceNext bool
 
 // ---------------------------------------------------------------------------------------------
 // command-line entry used by every harness test binary
@@ -522,6 +719,8 @@ func Main(harnesses ...*Harness) {
 		Out      string            `json:"out"`
 		Race     bool              `json:"race"`
 		Repeat   int               `json:"repeat"`
+		ClaimDir string            `json:"claim_dir"`
+		POR      bool              `json:"por"`
 	}
 	if err := json.Unmarshal([]byte(raw), &a); err != nil {
 		engineFail("bad VERIF_ARGS: %v", err)
@@ -544,6 +743,7 @@ func Main(harnesses ...*Harness) {
 			Obs    []string  `json:"obs"`
 			Points int       `json:"points"`
 			Stable bool      `json:"stable"`
+			Steps  []string  `json:"steps"`
 		}
 		r := rep{Stable: true}
 		n := a.Repeat
@@ -551,16 +751,16 @@ func Main(harnesses ...*Harness) {
 			n = 1
 		}
 		for i := 0; i < n; i++ {
-			f, o, p := Replay(h, a.Cfg, a.Choices)
+			f, o, p, st := Replay(h, a.Cfg, a.Choices)
 			if i == 0 {
-				r.Fails, r.Obs, r.Points = f, o, p
+				r.Fails, r.Obs, r.Points, r.Steps = f, o, p, st
 			} else if fmt.Sprint(f) != fmt.Sprint(r.Fails) || strings.Join(o, ";") != strings.Join(r.Obs, ";") {
 				r.Stable = false
 			}
 		}
 		out = r
 	default:
-		opt := Options{Bound: a.Bound, DevBound: a.DevBound, Cache: a.Cache, Shard: a.Shard, NShards: a.NShards, MaxExec: a.MaxExec, Cfg: a.Cfg, Race: a.Race}
+		opt := Options{Bound: a.Bound, DevBound: a.DevBound, Cache: a.Cache, Shard: a.Shard, NShards: a.NShards, MaxExec: a.MaxExec, Cfg: a.Cfg, Race: a.Race, ClaimDir: a.ClaimDir, POR: a.POR}
 		if a.BudgetS > 0 {
 			opt.Deadline = time.Now().Add(time.Duration(a.BudgetS * float64(time.Second)))
 		}
